@@ -280,6 +280,8 @@ class _Builder:
             # without xsi:type the decoder picks the class by its keys: give every subclass a field it alone requires
             f = self.new_field(c, cid, "Attribute", depth, used, next(self.names))
             f.update(card="one", tokens=0, types=[{"p": "int"}])
+            # ... under a key no sibling subclass uses (two siblings requiring the same key are the documented ambiguity again)
+            f["name"] = f["_local"] = f"only{cid}"
             f.pop("default", None)
             f.pop("required", None)
             f.pop("default_tokens", None)
